@@ -130,10 +130,18 @@ BIG_TALL = [(17, 16), (18, 15)]                              # more than 256 cel
 BIG_WIDE = [(16, 17), (15, 18)]
 
 
+# set (to a list of shapes) by c11.guided_search only: `extra_program_problems` of every module then yields ONE board of a shape
+# between the enumerable ones and the large ones
+GUIDED_SHAPES = None
+GUIDED_CHOICES = [(4, 4), (4, 5), (5, 4), (5, 5), (4, 6), (6, 4), (3, 5), (5, 3), (3, 6), (6, 3), (3, 7), (7, 3), (5, 6), (6, 5), (6, 6), (5, 7), (7, 5), (7, 7)]
+
+
 def big_shapes(rng, n_big=2, tall=None, wide=None):
     """Shapes for `extra_program_problems`: one clearly non-square medium board, then `n_big` boards with more than 256
     cells (a tall one, then a wide one; 17 x 16 and 16 x 17 have the same number of cells).  `tall` / `wide`: the module's
     own lists of large shapes when its Lean model is too slow for > 256 cells."""
+    if GUIDED_SHAPES:
+        return [rng.choice(GUIDED_SHAPES)]
     out = [rng.choice(MEDIUM_SHAPES)]
     big = [rng.choice(tall or BIG_TALL), rng.choice(wide or BIG_WIDE)]
     if n_big < 2:
